@@ -47,6 +47,10 @@ CHECKS = {
  'C15': dict(cat='exploration', technique='exhaustive differential exploration over (module, target class): ignore vs delete vs unchanged, for both generators, block-wise comparison with id normalisation',
              text='For every module of 1..2 (3) entity kinds in 4 namespace scopes and every class of 6 target kinds at every scope (global, depth 1..3; one instantiation for templated classes): the output with the class ignored must equal byte for byte the output with its declaration deleted, and every other entity block (pybind registration; MATLAB file, id-normalised MEX routines, collector, clean-up, RTTI entry) must equal its block in the unchanged output.',
              note='Differential oracle, no expected values; ignore entries spelled as each generator documents.', ref='2/C15'),
+
+ 'C06': dict(cat='exploration', technique='bounded-exhaustive enumeration of callables (kind x arity x trailing-default count x passing mode x return shape x scope); .m guards and call sites (mini-MATLAB AST) and C++ routine bodies compared with a reference marshalling model',
+             text='Every signature with arity 0..3 (4), every trailing default count, one (two) deviating parameter(s) over 16 passing modes, 13 return shapes, as method / static / function / constructor, in namespace gt and (subset/all) at global scope and two namespaces deep: arities offered must be exactly n..n-k; per arity the .m guard must test the count and the MATLAB class of each argument and pass the arguments/outputs as the return shape requires; the C++ routine must check the same count, unwrap parameter i from in[i(+1)] with the declared passing mode, call the declared entity with the arguments in order followed by the omitted defaults verbatim, and wrap the result for the declared return type.',
+             note='Text-level check of both sides; executing a gateway is C11. Conventions of matlab.h as listed in the evidence assumptions.', ref='2/C06'),
 }
 NOT_YET = 'check not built yet in this session (see DESIGN.md for the planned exhaustive exploration)'
 
